@@ -594,6 +594,9 @@ func (w *World) addr2() string {
 	if w.p.Cfg.Listeners == 3 {
 		return "unix:///tmp/verif-sim-second.sock"
 	}
+	if w.p.Cfg.Listeners == 4 {
+		return fmt.Sprintf("udp://%s:9002", w.p.Cfg.Host)
+	}
 	return fmt.Sprintf("%s://%s:9001", w.p.Cfg.Network, w.p.Cfg.Host)
 }
 
